@@ -6533,6 +6533,14 @@ func (p *parser) parseClass(classKeyword logger.Range, name *ast.LocRef, classOp
 	// A scope is needed for private identifiers
 	scopeIndex := p.pushScopeForParsePass(js_ast.ScopeClassBody, bodyLoc)
 
+	// A class body is strict mode code. This must already be known when symbols
+	// are hoisted (i.e. before the visit pass) because a function declaration in
+	// a nested block is only hoisted out of that block in sloppy mode. The scopes
+	// created inside the class body inherit this.
+	if p.currentScope.StrictMode == js_ast.SloppyMode {
+		p.currentScope.StrictMode = js_ast.ImplicitStrictModeClass
+	}
+
 	opts := propertyOpts{
 		isClass:          true,
 		decoratorScope:   p.currentScope,
